@@ -516,6 +516,49 @@ def check_polynomial_algebra(r, repo, tier, rule="R16.6"):
                  f"the value differs from sum c_i x**i for degree(s) {bad[:12]}", loc(rel, repo.func(rel, "fast_polynomial")))
 
 
+def check_zero_polynomial(r, repo, rule="R16.7"):
+    """The algebra of polynomial.py produces the zero polynomial as the empty coefficient list (derivative of a constant, add of
+    empty operands), so the evaluator must accept it.  fast_polynomial is interpreted (sa/absint.py) on coeffs = [] with its
+    recursive call replaced by a probe: reaching the recursion with an empty list again means the base cases (N == 0, N == 1) do
+    not cover it and the evaluation never terminates."""
+    from sa.absint import Interp, Closure, Unsupported as IUnsupported, PyRaise
+    from rules.C12 import Poly
+
+    rel = "polynomial.py"
+    d = repo.func(rel, "derivative")
+    produces_empty = None
+    I0 = Interp(repo)
+    try:
+        out0 = I0.call(Closure(d, {}, I0, rel, bound_self=None), [[Poly.atom("c0")]])
+        produces_empty = isinstance(out0, list) and len(out0) == 0
+    except (IUnsupported, PyRaise, TypeError):
+        produces_empty = None
+    if not produces_empty:
+        r.ob(rule, f"{rel}::derivative of a constant is not the empty list (nothing to check)", True, "", loc(rel, d))
+        return
+    f = repo.func(rel, "fast_polynomial")
+    hits = []
+
+    def probe(x, coeffs, *a, **k):
+        hits.append(len(coeffs) if isinstance(coeffs, (list, tuple)) else None)
+        return Poly.const(0)
+
+    verdict = None
+    I = Interp(repo)
+    I.globals_cache[(rel, "fast_polynomial")] = probe
+    try:
+        out = I.call(Closure(f, {}, I, rel, bound_self=None), [Poly.atom("x"), []])
+        verdict = "returns" if not hits else "recurses"
+    except PyRaise as e:
+        verdict = "raises " + str(getattr(e, "what", e))[:80]
+    except (IUnsupported, TypeError) as e:
+        raise AnalysisError(f"fast_polynomial is not interpretable on the empty list: {getattr(e, 'what', e)}")
+    ok = verdict == "returns"
+    r.ob(rule, f"{rel}::fast_polynomial evaluates the zero polynomial (empty coefficient list)", ok,
+         f"derivative([c]) returns [] and fast_polynomial(x, []) {('calls itself on the empty list again (' + str(hits[:3]) + '): no base case covers N = -1, the evaluation ends in RecursionError') if verdict == 'recurses' else verdict}",
+         loc(rel, f))
+
+
 def run(repo, tier):
     r = Report("C16", tier, repo, level="other", design_ref="§3/C16")
     r.explanation = (
@@ -532,6 +575,7 @@ def run(repo, tier):
     r.rule("R16.4", "a running power/accumulator updated in a loop (`v *= w`) is updated on every path through the loop body", floor=1)
     r.rule("R16.5", "polynomial division shifts the divisor by the degree of the current remainder, not by an iteration counter", floor=1)
     r.rule("R16.6", "polynomial algebra on symbolic coefficients: multiply, add, derivative, taylorat, rpolynomial and every scheme of fast_polynomial return exactly the polynomial they denote (identity of exact polynomials in the coefficient symbols and x)", floor=100)
+    r.rule("R16.7", "the evaluator accepts the zero polynomial in the form the algebra produces it (empty coefficient list)", floor=1)
     r.rule("R16.3", "exponent bookkeeping: fast_exponent_by_squaring returns x**n; the high part of a split is multiplied by x**d", floor=6)
 
     signatures = {}
@@ -727,6 +771,7 @@ def run(repo, tier):
     r.ob("R16.5", "polynomial.py::divmod divisor alignment", ok,
          f"the divisor is shifted by `{norm_src(shifted)}` using the loop counter while the remainder is shortened by a data-dependent number of "
          "terms per step (`while R and R[-1] == 0: R.pop()`): with zero coefficients the two get out of step and P != Q*D + R or deg R >= deg D", loc("polynomial.py", lp))
+    check_zero_polynomial(r, repo)
     return r
 
 
